@@ -21,10 +21,12 @@
 EXTENDS OciWire, Json
 
 CONSTANTS MaxSegs,      \* longest token sequence after the prefix
+          ReduceAt,     \* sequences of this length or more: first token from the Reduced set
           QLevel,       \* 1: 8 query shapes, 2: 24, 3: the product (163)
           LawSegs,      \* RepoSegmentwise / Split-Join laws checked on token sequences up to this length
-          AllSegs,      \* every shape with at most this many tokens is exported
-          KOk, KErr,    \* longer shapes: 1 in KOk of the well-formed ones, 1 in KErr of the others
+          AllSegs,      \* every /v2/ shape with at most this many tokens is exported
+          GetSegs,      \* ... and every GET /v2/ shape without a query with at most this many tokens
+          KOk, KErr,    \* other shapes: 1 in KOk of the well-formed ones, 1 in KErr of the others
           HandleK,      \* 1 in HandleK of the handle cases is exported (1 = all)
           Seed
 
@@ -50,6 +52,7 @@ T_bar == <<98, 97, 114>>   \* "bar"
 TokSeq == <<T_foo, T_Foo, T_empty, W_blobs, W_manifests, W_uploads, W_tags, W_list, W_referrers, W_catalog, W_v2,
             D1, Dbad, T_v10, T_dashx, T_idok, T_idbad>>
 NTok == Len(TokSeq)
+Reduced == {1, 2, 3, 4, 12, 15}      \* indices in TokSeq, see Next
 Methods == <<"GET", "HEAD", "PUT", "POST", "PATCH", "DELETE", "OPTIONS">>
 
 \* ----------------------------------------------------------------- queries
@@ -79,27 +82,8 @@ Queries == IF QLevel = 1 THEN Q1
            ELSE IF QLevel = 2 THEN Q1 \o SeqOf(QMid \ {Q1[i] : i \in 1..Len(Q1)})
            ELSE SeqOf(QAllSet)
 
-\* ------------------------------------------ memoised token classification
-\* (cfg: CompOK <- MCCompOK etc.  The tables are computed by the recognisers themselves.)
-PathToks == {TokSeq[i] : i \in 1..NTok} \cup {T_v1, T_bar}
-QueryVals == {D1, Dbad, D2, D512, <<>>}
-CompTab == [x \in PathToks |-> Ref!IsRepository(x)]
-TagTab == [x \in PathToks |-> Ref!IsTag(x)]
-DigestTab == [x \in PathToks \cup QueryVals |-> Ref!IsDigest(x)]
-IdTab == [x \in PathToks |-> LET d == B64Decode(x) IN [ok |-> d.ok /\ Utf8Valid(d.bytes), id |-> d.bytes]]
-MCCompOK(x) == CompTab[x]
-MCTagOK(x) == TagTab[x]
-MCDigestOK(x) == DigestTab[x]
-MCIdOf(x) == IdTab[x]
-\* the alphabet really has one token of every class the design lists
-ASSUME /\ CompTab[T_foo] /\ ~CompTab[T_Foo] /\ ~CompTab[T_empty] /\ CompTab[W_blobs] /\ ~CompTab[W_catalog] /\ CompTab[T_v10]
-       /\ TagTab[T_Foo] /\ TagTab[W_catalog] /\ ~TagTab[T_dashx] /\ ~TagTab[T_empty] /\ ~TagTab[D1]
-       /\ DigestTab[D1] /\ DigestTab[D2] /\ DigestTab[D512] /\ ~DigestTab[Dbad] /\ ~DigestTab[T_foo]
-       /\ IdTab[T_idok].ok /\ IdTab[T_idok].id = <<105, 100>> /\ ~IdTab[T_idbad].ok /\ ~IdTab[T_foo].ok
-
 \* ------------------------------------------------------- scripts, options
 MT_test == <<97, 112, 112, 108, 105, 99, 97, 116, 105, 111, 110, 47, 120, 45, 116, 101, 115, 116>>   \* "application/x-test"
-MT_json == <<97, 112, 112, 108, 105, 99, 97, 116, 105, 111, 110, 47, 106, 115, 111, 110>>   \* "application/json"
 ID_plain == <<105, 100>>   \* "id"
 ID_odd == <<97, 47, 98, 63, 99, 61, 100, 32, 101, 37>>   \* "a/b?c=d e%"
 ID_uni == <<195, 169, 228, 184, 150>>   \* "é世"
@@ -131,6 +115,26 @@ Body6 == [bytes |-> <<120>>,
 Bodies == <<Body1, Body2, Body3, Body4, Body5, Body6>>
 \* what the specification reads of a body
 BodyFacts(b) == [n |-> b.n, sha |-> b.sha, json |-> b.json, subj |-> b.subj]
+
+\* ------------------------------------------ memoised token classification
+\* (cfg: CompOK <- MCCompOK etc.  The tables are computed by the recognisers themselves.)
+\* (PathToks: every token that can appear in an enumerated path or query value; Bodies is defined below)
+PathToks == {TokSeq[i] : i \in 1..NTok} \cup {T_v1, T_bar, D2, D512} \cup {Bodies[i].sha : i \in 1..Len(Bodies)}
+QueryVals == {}
+CompTab == [x \in PathToks |-> Ref!IsRepository(x)]
+TagTab == [x \in PathToks |-> Ref!IsTag(x)]
+DigestTab == [x \in PathToks \cup QueryVals |-> Ref!IsDigest(x)]
+IdTab == [x \in PathToks |-> LET d == B64Decode(x) IN [ok |-> d.ok /\ Utf8Valid(d.bytes), id |-> d.bytes]]
+MCCompOK(x) == CompTab[x]
+MCTagOK(x) == TagTab[x]
+MCDigestOK(x) == DigestTab[x]
+MCIdOf(x) == IdTab[x]
+\* the alphabet really has one token of every class the design lists
+ASSUME {TokSeq[i] : i \in Reduced} = {T_foo, T_Foo, T_empty, W_blobs, D1, T_dashx}
+ASSUME /\ CompTab[T_foo] /\ ~CompTab[T_Foo] /\ ~CompTab[T_empty] /\ CompTab[W_blobs] /\ ~CompTab[W_catalog] /\ CompTab[T_v10]
+       /\ TagTab[T_Foo] /\ TagTab[W_catalog] /\ ~TagTab[T_dashx] /\ ~TagTab[T_empty] /\ ~TagTab[D1]
+       /\ DigestTab[D1] /\ DigestTab[D2] /\ DigestTab[D512] /\ ~DigestTab[Dbad] /\ ~DigestTab[T_foo]
+       /\ IdTab[T_idok].ok /\ IdTab[T_idok].id = <<105, 100>> /\ ~IdTab[T_idbad].ok /\ ~IdTab[T_foo].ok
 
 Ranges == <<<<>>,
            <<98, 121, 116, 101, 115, 61, 48, 45, 48>>,
@@ -168,19 +172,34 @@ ASSUME {AnsSeq[i] : i \in 1..Len(AnsSeq)} = Answers
 AnsIdx(a) == CHOOSE i \in 1..Len(AnsSeq) : AnsSeq[i] = a
 AnsFew == {"ok", "DENIED", "uncoded", "BLOB_UPLOAD_UNKNOWN", "RANGE_INVALID"}
 AnsSec == {"ok", "DENIED", "uncoded", "RANGE_INVALID"}
-Ids == <<ID_plain, ID_odd, ID_uni>>
+Ids == <<ID_plain, ID_odd, ID_uni, <<>>, <<105, 255>>>>       \* the last two: empty, not UTF-8
 CTypes == <<<<>>, MT_manifest, MT_index, MT_json>>
 
 \* cl: Content-Length; -2 stands for "the length of the body"
 D0 == [kind |-> "Ping", m |-> "GET", ans |-> "ok", rng |-> 1, size |-> 3, cr |-> 1, cl |-> -2, bi |-> 1, ct |-> 1,
        werr |-> "ok", cerr |-> "ok", merr |-> "ok", il |-> 1, iterr |-> "ok", nv |-> 1, lastv |-> FALSE, oi |-> 1,
-       ref |-> "tag", sid |-> 1, wsize |-> 5]
+       ref |-> "tag", sid |-> 1, wsize |-> 5, defect |-> "none"]
 K(kind, m) == [D0 EXCEPT !.kind = kind, !.m = m]
 ChunkCases(kind, m) ==
      {[K(kind, m) EXCEPT !.ans = a, !.cr = r, !.cl = c, !.bi = b] : a \in AnsFew, r \in 1..Len(CRanges), c \in {-1, 0, 1, 3}, b \in {1, 5, 6}}
 ListCases(kind) ==
      {[K(kind, "GET") EXCEPT !.iterr = a, !.il = i, !.nv = n, !.oi = o, !.lastv = l] :
         a \in AnsFew \cup {"NAME_UNKNOWN"}, i \in 1..Len(ItemLists), n \in 1..Len(NVs), o \in 1..2, l \in BOOLEAN}
+\* every canonical request with exactly one defect injected: an invalid repository, an invalid
+\* last segment (digest / tag / upload id), a method the route does not have, an invalid
+\* from= repository, an invalid digest= / mount= value.  Each must be rejected.
+Canon == {K("BlobGet", "GET"), K("BlobHead", "HEAD"), K("BlobDelete", "DELETE"), K("StartUpload", "POST"), K("UploadBlob", "POST"),
+          K("Mount", "POST"), K("UploadInfo", "GET"), K("UploadChunk", "PATCH"), K("CompleteUpload", "PUT"),
+          K("ManifestGet", "GET"), K("ManifestHead", "HEAD"), [K("ManifestPut", "PUT") EXCEPT !.bi = 2], K("ManifestDelete", "DELETE"),
+          [K("ManifestGet", "GET") EXCEPT !.ref = "dmatch"], [K("ManifestPut", "PUT") EXCEPT !.ref = "dmatch", !.bi = 2],
+          K("TagsList", "GET"), K("Catalog", "GET"), K("Referrers", "GET")}
+DefectsOf(c) ==
+  (IF c.kind = "Catalog" THEN {} ELSE {"repo"}) \cup {"method"}
+  \cup (IF c.kind \in {"BlobGet", "BlobHead", "BlobDelete", "UploadInfo", "UploadChunk", "CompleteUpload", "ManifestGet", "ManifestHead",
+                       "ManifestPut", "ManifestDelete", "Referrers", "TagsList"} THEN {"ref"} ELSE {})
+  \cup (IF c.kind = "Mount" THEN {"from"} ELSE {})
+  \cup (IF c.kind \in {"UploadBlob", "Mount", "CompleteUpload"} THEN {"qdigest"} ELSE {})
+OneDefect == UNION {{[c EXCEPT !.defect = d] : d \in DefectsOf(c)} : c \in Canon}
 HandleCases ==
   {K("Ping", m) : m \in {"GET", "HEAD"}}
   \cup {[K("BlobHead", "HEAD") EXCEPT !.ans = a, !.size = z] : a \in Answers, z \in {0, 3}}
@@ -193,6 +212,7 @@ HandleCases ==
   \cup ChunkCases("UploadChunk", "PATCH")
   \cup {[K("UploadChunk", "PATCH") EXCEPT !.cr = r, !.cl = c, !.bi = 5, !.werr = w, !.cerr = e, !.wsize = z] :
           r \in {1, 3}, c \in {-1, -2}, w \in AnsSec, e \in AnsSec, z \in {0, 5}}
+  \cup {[K("UploadChunk", "PATCH") EXCEPT !.sid = s, !.bi = b] : s \in 1..Len(Ids), b \in {1, 5}}
   \cup ChunkCases("CompleteUpload", "PUT")
   \cup {[K("CompleteUpload", "PUT") EXCEPT !.cr = r, !.cl = c, !.bi = 5, !.werr = w, !.merr = e, !.cerr = x] :
           r \in {1, 3}, c \in {-1, -2}, w \in AnsSec, e \in AnsSec \cup {"DIGEST_INVALID"}, x \in {"ok", "DENIED"}}
@@ -203,27 +223,36 @@ HandleCases ==
   \cup {[K("ManifestDelete", "DELETE") EXCEPT !.ans = a, !.ref = f] : a \in Answers, f \in {"tag", "dmatch"}}
   \cup ListCases("TagsList") \cup ListCases("Catalog")
   \cup {[K("Referrers", "GET") EXCEPT !.iterr = a, !.il = i, !.oi = o] : a \in Answers, i \in 1..Len(DigestLists), o \in 1..2}
+  \cup OneDefect
+
 
 Repo2 == <<T_foo, T_bar>>
+RepoBad == <<T_Foo, T_bar>>
 HcBody(c) == Bodies[c.bi]
 HcRefTok(c) == CASE c.ref = "tag" -> T_v10
                  [] c.ref = "dmatch" -> (IF c.kind = "ManifestPut" THEN HcBody(c).sha ELSE D1)
                  [] c.ref = "dmis" -> (IF HcBody(c).sha = D2 THEN D1 ELSE D2)
                  [] c.ref = "d512" -> D512
-\* the tokens after /v2/ of the canonical request of a case
+\* the tokens after /v2/ of the request of a case
 HcSegs(c) ==
+  LET rp == IF c.defect = "repo" THEN RepoBad ELSE Repo2
+      bad == c.defect = "ref"
+  IN
   CASE c.kind = "Ping" -> <<T_empty>>
-    [] c.kind \in {"BlobGet", "BlobHead", "BlobDelete"} -> Repo2 \o <<W_blobs, D1>>
-    [] c.kind \in {"StartUpload", "UploadBlob", "Mount"} -> Repo2 \o <<W_blobs, W_uploads, T_empty>>
-    [] c.kind \in {"UploadInfo", "UploadChunk", "CompleteUpload"} -> Repo2 \o <<W_blobs, W_uploads, T_idok>>
-    [] c.kind \in {"ManifestGet", "ManifestHead", "ManifestPut", "ManifestDelete"} -> Repo2 \o <<W_manifests, HcRefTok(c)>>
-    [] c.kind = "TagsList" -> Repo2 \o <<W_tags, W_list>>
+    [] c.kind \in {"BlobGet", "BlobHead", "BlobDelete"} -> rp \o <<W_blobs, IF bad THEN Dbad ELSE D1>>
+    [] c.kind \in {"StartUpload", "UploadBlob", "Mount"} -> rp \o <<W_blobs, W_uploads, T_empty>>
+    [] c.kind \in {"UploadInfo", "UploadChunk", "CompleteUpload"} -> rp \o <<W_blobs, W_uploads, IF bad THEN T_idbad ELSE T_idok>>
+    [] c.kind \in {"ManifestGet", "ManifestHead", "ManifestPut", "ManifestDelete"} -> rp \o <<W_manifests, IF bad THEN T_dashx ELSE HcRefTok(c)>>
+    [] c.kind = "TagsList" -> rp \o <<W_tags, IF bad THEN T_foo ELSE W_list>>
     [] c.kind = "Catalog" -> <<W_catalog>>
-    [] c.kind = "Referrers" -> Repo2 \o <<W_referrers, D1>>
+    [] c.kind = "Referrers" -> rp \o <<W_referrers, IF bad THEN Dbad ELSE D1>>
+HcMethod(c) == IF c.defect # "method" THEN c.m          \* a standard method the route does not have
+               ELSE IF c.kind \in {"UploadInfo", "UploadChunk", "CompleteUpload"} THEN "DELETE" ELSE "PATCH"
 HcQuery(c) ==
-  CASE c.kind = "UploadBlob" -> [Q0 EXCEPT !.digest = Val(D1)]
-    [] c.kind = "Mount" -> [Q0 EXCEPT !.mount = Val(D1), !.from = Val(R_foobar)]
-    [] c.kind = "CompleteUpload" -> [Q0 EXCEPT !.digest = Val(D1)]
+  LET qd == IF c.defect = "qdigest" THEN Dbad ELSE D1 IN
+  CASE c.kind = "UploadBlob" -> [Q0 EXCEPT !.digest = Val(qd)]
+    [] c.kind = "Mount" -> [Q0 EXCEPT !.mount = Val(qd), !.from = Val(IF c.defect = "from" THEN T_Foo ELSE R_foobar)]
+    [] c.kind = "CompleteUpload" -> [Q0 EXCEPT !.digest = Val(qd)]
     [] c.kind \in {"TagsList", "Catalog"} -> [Q0 EXCEPT !.n = NVs[c.nv], !.last = IF c.lastv THEN Val(T_foo) ELSE Absent]
     [] OTHER -> Q0
 HcHeaders(c) == [range |-> Ranges[c.rng], crange |-> CRanges[c.cr], ctype |-> CTypes[c.ct],
@@ -234,15 +263,23 @@ HcSc(c) == [ans |-> c.ans, size |-> c.size, mt |-> MT_test, rdig |-> D2, id |-> 
 HcHash(c) == c.rng * 7 + c.size * 3 + c.cr * 11 + (c.cl + 2) * 13 + c.bi * 17 + c.il * 19 + c.nv * 23 + c.oi * 29 + c.sid * 31
              + c.wsize * 37 + AnsIdx(c.ans) * 41 + AnsIdx(c.werr) * 43 + AnsIdx(c.cerr) * 47 + AnsIdx(c.merr) * 53
              + AnsIdx(c.iterr) * 59 + c.ct * 61 + Len(c.ref) * 67 + Len(c.kind) * 71 + (IF c.lastv THEN 73 ELSE 0)
+HcExported(c) == c.defect # "none" \/ (HcHash(c) + Seed) % HandleK = 0
 
 \* ------------------------------------------------------------ enumeration
 Prefixes == {"v2", "none", "v1", "noslash"}
 PrefixOf(x) == CASE x = "v2" -> << <<>>, W_v2 >> [] x = "none" -> << <<>> >> [] x = "v1" -> << <<>>, T_v1 >> [] x = "noslash" -> <<W_v2>>
+\* (the handle cases are successors of one root state, not initial states: TLC evaluates
+\* initial states on its main thread, whose stack is not governed by -Xss)
 Init == \/ mode = "route" /\ pre \in Prefixes /\ si = <<>> /\ hc = D0
-        \/ mode = "handle" /\ pre = "v2" /\ si = <<>> /\ hc \in HandleCases
-Next == /\ mode = "route" /\ Len(si) < (IF pre = "v2" THEN MaxSegs ELSE 2)
-        /\ \E i \in 1..NTok : si' = Append(si, i)
-        /\ UNCHANGED <<mode, pre, hc>>
+        \/ mode = "root" /\ pre = "v2" /\ si = <<>> /\ hc = D0
+\* From ReduceAt tokens on, the first token is one of six class representatives (foo, Foo, "",
+\* blobs, a digest, -x): with that many tokens it can only ever be a repository component.
+Next == \/ /\ mode = "route" /\ Len(si) < (IF pre = "v2" THEN MaxSegs ELSE 2)
+           /\ (Len(si) + 1 >= ReduceAt) => si[1] \in Reduced
+           /\ \E i \in 1..NTok : si' = Append(si, i)
+           /\ UNCHANGED <<mode, pre, hc>>
+        \/ /\ mode = "root" /\ mode' = "handle" /\ hc' \in HandleCases
+           /\ UNCHANGED <<pre, si>>
 Spec == Init /\ [][Next]_vars
 
 \* ------------------------------------------------ properties and export
@@ -266,7 +303,9 @@ RouteCheck ==
               r == RespondSegs(p, [m |-> m, path |-> <<>>, q |-> q, h |-> H0, body |-> b], Sc0, O0)
               hv == (sh * 31 + mi) * 31 + qi + Seed
           IN /\ Props(r, Sc0, O0)
-             /\ (Len(si) <= AllSegs \/ (IF r.mode = "exact" THEN hv % KOk = 0 ELSE hv % KErr = 0))
+             /\ (\/ pre = "v2" /\ Len(si) <= AllSegs
+                 \/ pre = "v2" /\ Len(si) <= GetSegs /\ mi = 1 /\ qi = 1          \* GET without a query
+                 \/ (IF r.mode = "exact" THEN hv % KOk = 0 ELSE hv % KErr = 0))
                   => Case(m, p, q, H0, Body1, Sc0, O0, r)
 HandleCheck ==
   LET p == << <<>>, W_v2 >> \o HcSegs(hc)
@@ -274,9 +313,12 @@ HandleCheck ==
       h == HcHeaders(hc)
       sc == HcSc(hc)
       o == Opts[hc.oi]
-      r == RespondSegs(p, [m |-> hc.m, path |-> <<>>, q |-> q, h |-> h, body |-> BodyFacts(HcBody(hc))], sc, o)
+      m == HcMethod(hc)
+      r == RespondSegs(p, [m |-> m, path |-> <<>>, q |-> q, h |-> h, body |-> BodyFacts(HcBody(hc))], sc, o)
   IN /\ Props(r, sc, o)
-     /\ r.kind \in {hc.kind, "StartUpload"}         \* the canonical request is routed to its handler
-     /\ ((HcHash(hc) + Seed) % HandleK = 0) => Case(hc.m, p, q, h, HcBody(hc), sc, o, r)
-Check == IF mode = "route" THEN RouteCheck ELSE HandleCheck
+     /\ IF hc.defect # "none" THEN r.mode = "reject"      \* one defect: rejected
+        ELSE \/ r.kind \in {hc.kind, "StartUpload"}      \* none: the canonical request is routed to its handler
+             \/ hc.kind \in {"TagsList", "Catalog"} /\ NVs[hc.nv].v # <<>> /\ Atoi(NVs[hc.nv].v).cls # "int"
+     /\ HcExported(hc) => Case(m, p, q, h, HcBody(hc), sc, o, r)
+Check == CASE mode = "route" -> RouteCheck [] mode = "handle" -> HandleCheck [] OTHER -> TRUE
 =============================================================================
